@@ -244,6 +244,12 @@ def check(ctx):
                 c, c2 = cases_for(rng, m, fn), cases_for(rng, m2, fn2)
                 if c and c2:
                     nest.append("Nest %s %s %d %d %d %s %s %d %d %d %s" % (fn, fmt(m), c[0], c[1], c[2], fn2, fmt(m2), c2[0], c2[1], c2[2], "all" if ctx.thorough else "s200"))
+        # the interrupting call is the very same call (same arena contents, same arguments) and a call of the same function on the same
+        # arena with other offsets: hidden state that both calls set and clear in the same places
+        for _ in range(4 if ctx.thorough else 2):
+            m = small_arena([97, 98, 99, 65, 255]); c = cases_for(rng, m, fn); c3 = cases_for(rng, m, fn)
+            if c: nest.append("Nest %s %s %d %d %d %s %s %d %d %d %s" % (fn, fmt(m), c[0], c[1], c[2], fn, fmt(m), c[0], c[1], c[2], "all" if ctx.thorough else "s120"))
+            if c and c3: nest.append("Nest %s %s %d %d %d %s %s %d %d %d %s" % (fn, fmt(m), c[0], c[1], c[2], fn, fmt(m), c3[0], c3[1], c3[2], "all" if ctx.thorough else "s120"))
     nscript = []
     for i, ln in enumerate(nest):
         if i % 4 == 0: nscript.append("R")
